@@ -567,7 +567,8 @@ package graphql
 //@   requires sp != nil
 //@   requires selectionSet != nil
 //@   requires keyed != nil
-//@   at[C01,C13] call append#2: assert !has(keyed, responseKey)
+//@   at[C01,C13] call getFieldDef: assert !has(keyed, responseKey)
+//@   at[C01,C13] call append#2: assert has(keyed, responseKey) && keyed[responseKey] == len(arg0)
 //@   at[C13] call append#2: assert arg0 == sp.fields
 //@   at[C01,C20] call append#1: assert has(keyed, responseKey) && arg0 == sp.fields[keyed[responseKey]].fieldASTs
 //@   at[C01] call collectInto: assert arg0 == p && arg1 == parentType && arg3 == visitedFragmentNames && arg4 == sp && arg5 == keyed
